@@ -30,12 +30,25 @@ def history_prefix(cases, idx):
     return [c for c in cases[:idx + 1] if c.startswith('h.') and len(c.split('\t')) > 1 and c.split('\t')[1].startswith(hid)]
 
 
-def compare(res, prop, suite, cases, impl, model):
+def compare(res, prop, suite, cases, impl, model, pinned=False):
     cfg = runner.PROPS[prop]
     cmps = [c for c in cfg['cmps'] if c.suite == suite]
     for idx, (c, i, m) in enumerate(zip(cases, impl, model)):
-        res.evaluations += 1
         op = c.split('\t', 1)[0]
+        if pinned:
+            # second pass: the implementation against the model as verified with the pinned facts
+            if 'ORACLE-MISS' in m or 'BAD-' in m:
+                continue
+            for cmpr in cmps:
+                if not cmpr.applies(c):
+                    continue
+                iv, mv = cmpr.project(c, i, m)
+                if iv != mv:
+                    res.mismatches.append(dict(suite=suite, mode=cmpr.mode + '/pinned-facts', kind=cmpr.kind, case=c, impl=i, model=m,
+                                               impl_view=iv, model_view=mv,
+                                               replay_cases=history_prefix(cases, idx) if len(res.mismatches) < 20 else [c]))
+            continue
+        res.evaluations += 1
         res.count('op:' + op)
         if 'ORACLE-MISS' in m or 'BAD-' in m:
             raise RuntimeError('harness/driver protocol problem on case: %s -> %s' % (c[:300], m))
@@ -144,6 +157,10 @@ def run_property(prop, tier, seed, replay_path, t0):
                     sseed = seed * 1000003 + k
                     c, i, m = runner.run_suite(stage, suite, sseed, n, workdir, extra)
                     compare(res, prop, suite, c, i, m)
+                    if stage.facts_changed and stage.pinned:
+                        mp = runner.run_pinned(stage, os.path.join(workdir, suite + '.cases'), os.path.join(workdir, suite + '.pinned'))
+                        if len(mp) == len(c):
+                            compare(res, prop, suite, c, i, mp, pinned=True)
                     res.suite_rules.append('%s: %s' % (suite, runner.RULES[suite]))
                 # property-specific machinery
                 import extras
@@ -184,6 +201,10 @@ def run_property(prop, tier, seed, replay_path, t0):
         exhaustive=False,
         explanation=cfg.get('explanation', 'Lean theorems about the hand-written model + regenerated facts + differential correspondence of model and implementation on generated cases'),
     )
+    if stage.facts_changed:
+        coverage['facts_changed'] = stage.facts_changed
+        coverage['facts_changed_note'] = ('regenerated facts differ from /verif/pinned/Facts.lean; the suites were also compared against the model built from the pinned facts'
+                                          if stage.pinned else 'regenerated facts differ from the pinned facts; no pinned driver available')
     coverage.update(extra_info)
     ev = dict(property_id=prop, tier=tier, seed=seed, level=level, coverage=coverage,
               assumptions=runner.TRUSTED_BASE + cfg.get('trusted_extra', []),
